@@ -27,6 +27,8 @@ func main() {
 	switch *prop {
 	case "c24":
 		runC24(*repo, *coq, *js)
+	case "c36":
+		runC36(*repo, *coq, *js)
 	case "c38":
 		runC38(*repo, *coq, *js)
 	default:
